@@ -106,6 +106,28 @@ def _lib_frame(tb):
     return seen_lib
 
 
+def _storage_error_through_lib(e):
+    """A storage-style error (OSError family / fs.errors) that a stub - or the real function a
+    stub routed to - raised while the library was calling it, and that the library let
+    escape: that is the stub answering the library (file not found, not a directory, ...),
+    not the harness failing."""
+    try:
+        import fs.errors as _fse
+        kinds = (OSError, _fse.FSError)
+    except Exception:
+        kinds = (OSError,)
+    if not isinstance(e, kinds):
+        return False
+    tb = e.__traceback__
+    seen_lib = False
+    while tb is not None:
+        fn = tb.tb_frame.f_code.co_filename
+        if fn.startswith(REPO + "/"):
+            seen_lib = True
+        tb = tb.tb_next
+    return seen_lib
+
+
 def execute(sc):
     """Execute one scenario; unexpected exceptions raised from inside the library
     become violations, anything else is a harness error."""
@@ -121,7 +143,7 @@ def execute(sc):
         res.violate(prop, e.clause, **e.detail)
         return res
     except Exception as e:
-        if _lib_frame(e.__traceback__):
+        if _lib_frame(e.__traceback__) or _storage_error_through_lib(e):
             res = RunResult()
             res.evaluations = 1
             res.violate(prop, "unexpected-library-exception:" + type(e).__name__,
